@@ -90,6 +90,7 @@ PROPS = {
         functions=[SP + "StatisticalContinuumSampler.sample_from_continuum", SP + "AbstractContinuumSampler._has_been_init",
                    SP + "StatisticalContinuumSampler._set_nb_units_information", SP + "StatisticalContinuumSampler._set_duration_information",
                    SP + "StatisticalContinuumSampler._set_categories_information", SP + "StatisticalContinuumSampler._set_gap_information",
+                   SP + "StatisticalContinuumSampler.init_sampling#given", SP + "StatisticalContinuumSampler.init_sampling#default",
                    SP + "AbstractContinuumSampler.init_sampling#given", SP + "AbstractContinuumSampler.init_sampling#default"]
                   + [CT + "Continuum." + m for m in ("copy_flush", "add", "add_annotator", "__bool__")] + [CT + "Unit.__lt__"],
         lawtags=True,
@@ -100,8 +101,9 @@ PROPS = {
                            "weighted by the fraction of the reference's units carrying it; for references whose units are all labelled) and "
                            "_set_gap_information (np.mean / np.std of a list that starts with 0 and otherwise holds only distances between two "
                            "units adjacent in iteration order of one annotator, or positive first starts; that EVERY such gap is in the list "
-                           "is not stated); the statistical sampler's own init_sampling and init_sampling_custom "
-                           "are not under a deductive contract (law tags only): measured parameters "
+                           "is not stated), and the statistical sampler's init_sampling (after it, every law parameter is the one the four setters measure "
+                           "on the reference; ground-truth annotators as given / all); init_sampling_custom "
+                           "is not under a deductive contract (law tags only): measured parameters "
                            "against numpy on random references, 40 seeded draws per case: validity clauses again, plus a loose 6-standard-error "
                            "check of the mean duration")],
         design_ref="DESIGN.md section 4 C15",
